@@ -40,6 +40,9 @@ Definition vmask (m : mask) (v : vec) : vec := vmk (fun d => if mget m d then vg
 Definition mask_eqb (a b : mask) : bool :=
   forallb (fun d => Bool.eqb (mget a d) (mget b d)) dims.
 Definition all_dims (f : dim -> bool) : bool := forallb f dims.
+(* every key of [a] is a key of [b] *)
+Definition mask_subb (a b : mask) : bool :=
+  forallb (fun d => negb (mget a d) || mget b d) dims.
 Definition any_dim (f : dim -> bool) : bool := existsb f dims.
 
 (* ---------- state ---------- *)
@@ -76,14 +79,20 @@ Record pod := mkPod {
   p_id : Z; p_quota : Z;
   p_req : vec; p_keys : mask;     (* requests of the pod and which keys they carry (an explicit 0 is a key) *)
   p_np : bool; p_assigned : bool;
-  p_bound : bool }.               (* the pod object carries a node name (a bound pod replayed by the informer) *)
+  p_bound : bool;                 (* the pod object carries a node name (a bound pod replayed by the informer) *)
+  p_term : bool }.                (* the pod object's phase is Succeeded or Failed (util.IsPodTerminated) *)
 
 Record state := mkState { quotas : list quota; pods : list pod; total : vec }.
 Record config := mkConfig { rt_on : bool; chk_parent : bool }.
 
 (* The is-parent label is a function of the id: quotas with an even id carry is-parent=true (the
    harness names and labels them accordingly); child quotas can only be created under them, with a
-   larger id than their parent (what the webhook's parent check plus creation order give). *)
+   larger id than their parent (what the webhook's parent check plus creation order give).
+   The KEY SET of a child's max is arbitrary when the limit is max (any quota tree, also the ones
+   the webhook would refuse: an intermediate quota lacking a dimension its parent and its child
+   both declare); when runtime quota is on it must be included in the parent's key set (the
+   webhook's rule with ElasticQuotaEnableUpdateResourceKey; outside it the calculators drop
+   dimensions, see DESIGN 11.4). *)
 Definition is_parent_id (id : Z) : bool := Z.even id.
 
 Definition init_state : state := mkState [] [] vzero.
@@ -215,12 +224,17 @@ Definition refresh (ids : list Z) (qs : list quota) (ps : list pod) : list quota
   map (fun q => if mem_id (q_id q) ids then set_creq q (vmk (limreq (length qs) qs ps q)) else q) qs.
 Definition vec_zerob (v : vec) : bool := all_dims (fun d => vget v d =? 0).
 Definition set_assigned (id : Z) (b : bool) (ps : list pod) : list pod :=
-  map (fun p => if p_id p =? id then mkPod (p_id p) (p_quota p) (p_req p) (p_keys p) (p_np p) b (p_bound p) else p) ps.
+  map (fun p => if p_id p =? id then mkPod (p_id p) (p_quota p) (p_req p) (p_keys p) (p_np p) b (p_bound p) (p_term p) else p) ps.
 (* the preemptible label of a pod flips *)
 Definition flip_np (p : pod) : pod :=
-  mkPod (p_id p) (p_quota p) (p_req p) (p_keys p) (negb (p_np p)) (p_assigned p) (p_bound p).
+  mkPod (p_id p) (p_quota p) (p_req p) (p_keys p) (negb (p_np p)) (p_assigned p) (p_bound p) (p_term p).
 Definition set_np (id : Z) (ps : list pod) : list pod :=
   map (fun p => if p_id p =? id then flip_np p else p) ps.
+(* a status update: the object now carries a node name / a new phase *)
+Definition with_status (p : pod) (b t : bool) : pod :=
+  mkPod (p_id p) (p_quota p) (p_req p) (p_keys p) (p_np p) (p_assigned p) b t.
+Definition set_status (id : Z) (b t : bool) (ps : list pod) : list pod :=
+  map (fun p => if p_id p =? id then with_status p b t else p) ps.
 Definition remove_pod (id : Z) (ps : list pod) : list pod :=
   filter (fun p => negb (p_id p =? id)) ps.
 
@@ -246,20 +260,47 @@ Definition refund (st : state) (p : pod) : list quota :=
 Definition apply_attempt (st : state) (p : pod) (v : Z) : state :=
   if (v =? 0) && negb (p_assigned p) then charge st p else st.
 
+(* ---------- usage recomputed from the pods that are currently assigned ---------- *)
+Definition pod_share (st : state) (q : quota) (p : pod) : vec :=
+  if p_assigned p && mem_id (q_id q) (map q_id (path st (p_quota p))) then pod_delta st p else vzero.
+Definition exp_used (st : state) (q : quota) (d : dim) : Z :=
+  sumZ (map (fun p => vget (pod_share st q p) d) (pods st)).
+Definition exp_npused (st : state) (q : quota) (d : dim) : Z :=
+  sumZ (map (fun p => if p_np p then vget (pod_share st q p) d else 0) (pods st)).
+
+(* ---------- restart (fail-over) ---------- *)
+(* what OnPodAdd decides for a replayed pod object: node name set and not terminated *)
+Definition replay_flag (p : pod) : bool := p_bound p && negb (p_term p).
+Definition restart_pod (p : pod) : pod :=
+  mkPod (p_id p) (p_quota p) (p_req p) (p_keys p) (p_np p) (replay_flag p) (p_bound p) (p_term p).
+(* quotas that are charged, by the replay, for a pod that was not assigned before (no admission) *)
+Definition fresh_ids (st : state) : list Z :=
+  flat_map (fun p => if negb (p_assigned p) && replay_flag p
+                     then map q_id (path st (p_quota p)) else []) (pods st).
+
 (* ---------- operations ---------- *)
 Inductive op :=
 | OQuotaAdd (id parent : Z) (lend : bool) (decl : mask) (mx : vec) (mindecl : mask) (mn w : vec)
 | OQuotaUpdate (id : Z) (mx : vec) (mindecl : mask) (mn w : vec)
-| OPodAdd (id quota : Z) (np : bool) (req : vec) (keys : mask)   (* pending pod seen by the informer *)
+| OPodAdd (id quota : Z) (np : bool) (req : vec) (keys : mask) (term : bool)  (* unbound pod seen by the informer *)
 | OAttempt (id : Z)                                     (* PreFilter, then Reserve on success *)
 | OCheck (id : Z)                                       (* PreFilter alone (the cycle may go on to Reserve later) *)
 | OReserve (id : Z)                                     (* Reserve alone *)
 | OUnreserve (id : Z)
 | OPodDelete (id : Z)
 | OCapacity (t : vec)
-| OPodAddBound (id quota : Z) (np : bool) (req : vec) (keys : mask)  (* already-bound pod replayed by the informer *)
+| OPodAddBound (id quota : Z) (np : bool) (req : vec) (keys : mask) (term : bool)
+    (* already-bound pod replayed by the informer (fail-over); [term]: its phase is Succeeded/Failed *)
 | OQuotaFlipLend (id : Z)    (* allow-lent-resource label flipped: a META change, UpdateQuota rebuilds the whole tree *)
 | OPodRelabel (id : Z)       (* pod update event that only flips the pod's preemptible label *)
+| OPodStatus (id : Z) (term bind : bool)
+    (* pod update event that only changes the status: new phase (terminated or not) and, when
+       [bind], the node name is now set (the binding confirmed by the API server) *)
+| ORestart
+    (* scheduler restart / leader fail-over: a new quota manager, ReplaceQuotas with all quota
+       objects, the node and then every pod object replayed through OnPodAdd.  Assignments of
+       pods whose binding is not yet visible in their object are lost; bound, non-terminated pods
+       are charged again without admission. *)
 | ONop.
 
 (* what is logged after every operation *)
@@ -291,7 +332,8 @@ Definition step (cfg : config) (st : state) (o : op) : state * obs :=
     let ok_parent :=
       if parent =? 0 then true
       else match find_quota parent (quotas st) with
-           | Some P => mask_eqb (q_decl P) decl && is_parent_id parent && (parent <? id)
+           | Some P => (negb (rt_on cfg) || mask_subb decl (q_decl P))
+                       && is_parent_id parent && (parent <? id)
            | None => false
            end in
     if (id <=? 0) || (match find_quota id (quotas st) with Some _ => true | None => false end)
@@ -324,19 +366,23 @@ Definition step (cfg : config) (st : state) (o : op) : state * obs :=
                  then refresh (id :: map q_id (path st (q_parent q0))) qs1 (pods st) else qs1 in
       plain (mkState qs2 (pods st) (total st))
     end
-  | OPodAdd id qn np req keys =>
+  | OPodAdd id qn np req keys term =>
     match find_pod id (pods st), find_quota qn (quotas st) with
     | None, Some _ =>
-      let p := mkPod id qn req keys np false false in
+      let p := mkPod id qn req keys np false false term in
       let ps := pods st ++ [p] in
       plain (mkState (touch_request st p (quotas st) ps) ps (total st))
     | _, _ => skip
     end
-  | OPodAddBound id qn np req keys =>
+  | OPodAddBound id qn np req keys term =>
     match find_pod id (pods st), find_quota qn (quotas st) with
     | None, Some _ =>
-      let p := mkPod id qn req keys np false true in
+      let p := mkPod id qn req keys np false true term in
       let ps := pods st ++ [p] in
+      (* OnPodAdd: "in case failOver": NodeName set and not terminated -> assigned, whatever the
+         phase otherwise (a bound pod stays Pending while its containers are created) *)
+      if term then plain (mkState (touch_request st p (quotas st) ps) ps (total st))
+      else
       let qs := touch_request st p (taint_ids (map q_id (path st qn)) (quotas st)) ps in
       plain (charge (mkState qs ps (total st)) p)
     | _, _ => skip
@@ -403,11 +449,33 @@ Definition step (cfg : config) (st : state) (o : op) : state * obs :=
                              (upd_used ids (fun u => u)
                                        (fun u => if p_np p then vsub_clamp u dl else vadd u dl) (quotas st)) ps)
                           ps (total st))
-      else if p_bound p
+      else if p_bound p && negb (p_term p)
       then plain (charge (mkState (touch_request st p' (taint_ids ids (quotas st)) ps) ps (total st)) p')
       else plain (mkState (touch_request st p' (quotas st) ps) ps (total st))
     end
+  | OPodStatus id term bind =>
+    match find_pod id (pods st) with
+    | None => skip
+    | Some p =>
+      (* OnPodUpdate with an unchanged spec and labels: both request deltas are zero.  A pod that
+         is already assigned stays so (also when it terminates: it holds its quota until it is
+         deleted); one that is not is assigned on the spot when the new object carries a node
+         name and is not terminated (no admission). *)
+      let b := p_bound p || bind in
+      let p' := with_status p b term in
+      let ps := set_status id b term (pods st) in
+      if negb (p_assigned p) && b && negb term
+      then plain (charge (mkState (taint_ids (map q_id (path st (p_quota p))) (quotas st)) ps (total st)) p')
+      else plain (mkState (quotas st) ps (total st))
+    end
   | OCapacity t => plain (mkState (quotas st) (pods st) t)
+  | ORestart =>
+    let ps := map restart_pod (pods st) in
+    let qs1 := taint_ids (fresh_ids st) (quotas st) in
+    let st1 := mkState qs1 ps (total st) in
+    let qs2 := map (fun q => set_usage q (vmk (exp_used st1 q)) (vmk (exp_npused st1 q))) qs1 in
+    (* every calculator is rebuilt and every request re-propagated, as for a quota meta change *)
+    plain (mkState (refresh (map q_id qs2) qs2 ps) ps (total st))
   | ONop => skip
   end.
 
@@ -434,7 +502,7 @@ Definition track (cfg : config) (st : state) (sn : snap) (o : op) : snap :=
       if admission cfg st p pth =? 0 then Some (id, (map q_id pth, pod_delta st p)) else None
     | None => None
     end
-  | OAttempt _ | OReserve _ => None
+  | OAttempt _ | OReserve _ | ORestart => None
   | OPodDelete id =>
     match sn with
     | Some (i, _) => if i =? id then None else sn
@@ -442,11 +510,3 @@ Definition track (cfg : config) (st : state) (sn : snap) (o : op) : snap :=
     end
   | _ => sn
   end.
-
-(* ---------- usage recomputed from the pods that are currently assigned ---------- *)
-Definition pod_share (st : state) (q : quota) (p : pod) : vec :=
-  if p_assigned p && mem_id (q_id q) (map q_id (path st (p_quota p))) then pod_delta st p else vzero.
-Definition exp_used (st : state) (q : quota) (d : dim) : Z :=
-  sumZ (map (fun p => vget (pod_share st q p) d) (pods st)).
-Definition exp_npused (st : state) (q : quota) (d : dim) : Z :=
-  sumZ (map (fun p => if p_np p then vget (pod_share st q p) d else 0) (pods st)).
